@@ -45,6 +45,10 @@ def gen_case(seed: int, tier: str, index: int) -> Dict[str, Any]:
         # spa-side device flips that make the facade switch mode
         for _ in range(rng.randint(2, 10)):
             plan.append({"op": "flip", "t": round(rng.uniform(1.0, dur), 3), "dev": rng.randrange(6), "on": rng.random() < 0.5, "form": rng.randrange(3)})
+        # ... and flips whose report never reaches the client (form 3): it learns the new state from its next periodic refresh
+        rng_u = random.Random(mix(seed, "c17.unreported"))
+        for _ in range(rng_u.choice([0, 1, 2, 4])):
+            plan.append({"op": "flip", "t": round(rng_u.uniform(1.0, dur), 3), "dev": rng_u.randrange(6), "on": rng_u.random() < 0.6, "form": 3})
         # reconnect cycles: the timing table is process-wide and outlives a facade, so a device that changes while the client is
         # away must still be reflected once the new facade is ready
         for _ in range(rng.choice([0, 1, 1, 2])):
@@ -221,7 +225,12 @@ async def scenario(world: WorldA) -> None:
                 on_vals = [i for i in a.items if i not in ("OFF", "")]
                 val = (on_vals[0] if on_vals else "OFF") if op["on"] else "OFF"
             form = op.get("form", 0)
-            if form == 0:
+            if form == 3:
+                before = model.structure.status_block
+                a.value = val                           # the report is lost: nothing is sent
+                if model.structure.status_block != before:
+                    res.probe("flip_learnt_only_from_a_refresh")
+            elif form == 0:
                 model.do_set(f"{key}={val}")          # the simulator's own report: one byte at the item's address
             else:
                 # a real spa reports a change as a position + word record: the word that starts at the state byte, or the one that
@@ -342,7 +351,7 @@ ASSUMPTIONS = [
     "'at once' = every moment between the switch and the wake is attributable to simulator-injected callback cost (+2 ms)",
     "only upper bounds are checked: the statement does not forbid an early wake",
 ]
-PROBES = ["flip_reported_as_word_at_item", "flip_reported_as_word_before_item", "facade_ready_after_reconnect", "facade_wants_active", "facade_wants_idle", "sleeper_interrupted_by_switch", "sleeper_ran_full_time", "switch_in_same_instant_as_sleep_start", "both_modes_requested", "ten_or_more_sleeps"]
+PROBES = ["flip_learnt_only_from_a_refresh", "flip_reported_as_word_at_item", "flip_reported_as_word_before_item", "facade_ready_after_reconnect", "facade_wants_active", "facade_wants_idle", "sleeper_interrupted_by_switch", "sleeper_ran_full_time", "switch_in_same_instant_as_sleep_start", "both_modes_requested", "ten_or_more_sleeps"]
 N_QUICK = 4000
 
 
